@@ -35,7 +35,10 @@ RULE = (
     "fields present, identical at both destinations; caller-held dicts/objects deep-equal before and after; on a fault the "
     "message (identified by a unique token) reaches no destination, exactly one eliot:traceback directly followed by one "
     "eliot:serialization_failure naming the token is delivered, both in the context current at that moment (or two "
-    "stand-alone tasks when there is none), and the call returns. Non-trivial: a non-idempotent serializer on a value with "
+    "stand-alone tasks when there is none), and the call returns. Facets concurrent(-enum): 2-3 threads log typed "
+    "messages, some with failing serializers, through the shared default Logger under line-level schedules (generated "
+    "plans and every single preemption): every failing message gets its own traceback + serialization_failure, every "
+    "healthy one is delivered once. Non-trivial: a non-idempotent serializer on a value with "
     "f(f(v)) != f(v), or a fault on a start/end message. Distinct = canonical JSON of the case."
 )
 ASSUMPTIONS = [
@@ -509,4 +512,97 @@ def strategy():
     )
 
 
-FACETS = [Facet("typed", strategy, check, classify, quick=2000, thorough=50000)]
+# -------------------------------------------------------------- concurrent
+
+
+def check_concurrent(case):
+    """Threads log typed messages (some with failing serializers) through the shared default Logger."""
+    from .. import sched
+    from ..core import HarnessError
+    from eliot import _output
+
+    saved = Logger._destinations
+    with sched.cooperative_locks(_output):
+        fresh = Destinations()
+    Logger._destinations = fresh
+    rec = Recorder()
+    fresh.add(rec)
+    plans_ = case["plan"]
+    try:
+        def worker(tid, specs):
+            def run():
+                for k, fails in enumerate(specs):
+                    token = "T%dK%dZ" % (tid, k)
+
+                    def ser(v, fails=fails):
+                        if fails:
+                            raise SerFault("serializer fails")
+                        return [v]
+
+                    mt = MessageType("c13:conc", [Field("v", ser, ""), Field("tok", lambda v: v, "")], "")
+                    mt.log(v=k, tok=token)
+
+            return run
+
+        s = sched.Scheduler(("eliot/_output.py",), plans_)
+        s.run([worker(i, specs) for i, specs in enumerate(case["threads"])])
+    finally:
+        Logger._destinations = saved
+    for wid, e in s.errors.items():
+        if isinstance(e, HarnessError):
+            raise e
+        raise Violation("call-raised", "thread %d raised %r" % (wid, e))
+    msgs = rec.messages
+    faults = 0
+    for tid, specs in enumerate(case["threads"]):
+        for k, fails in enumerate(specs):
+            token = "T%dK%dZ" % (tid, k)
+            mine = [m for m in msgs if m.get("tok") == token]
+            reports = [m for m in msgs if m.get("message_type") == "eliot:serialization_failure" and token in str(m.get("message"))]
+            if fails:
+                faults += 1
+                require(not mine, "faulty-message-delivered", "message %s delivered although its serializer failed" % token)
+                require(len(reports) == 1, "failure-report-count", lambda: "%d eliot:serialization_failure messages for %s (all messages: %r)" % (len(reports), token, [m.get("message_type") for m in msgs]))
+            else:
+                require(len(mine) == 1 and mine[0]["v"] == [k], "delivery", lambda: "message %s delivered %d times / wrong value" % (token, len(mine)))
+                require(not reports, "spurious-failure-report", "report for healthy message %s" % token)
+    tbs = [m for m in msgs if m.get("message_type") == "eliot:traceback"]
+    require(len(tbs) == faults, "traceback-count", lambda: "%d serializer failures but %d eliot:traceback messages" % (faults, len(tbs)))
+    inside = s.switched_inside(("write", "send"))
+    return {"faults": faults, "switch_inside": len(inside), "switches": len(s.switches)}
+
+
+def classify_concurrent(case, info):
+    labels = ["threads=%d" % len(case["threads"]), "faults=%d" % min(info["faults"], 4), "switches=%d" % min(info["switches"], 6)]
+    if info["switch_inside"]:
+        labels.append("preempted-inside-write")
+    return info["faults"] >= 2 and info["switch_inside"] >= 1, labels
+
+
+def concurrent_strategy():
+    from .. import sched
+
+    return st.builds(
+        lambda plan, threads: {"plan": plan, "threads": threads},
+        sched.plans(max_segments=10, max_steps=40, workers=3),
+        st.lists(st.lists(st.booleans(), min_size=1, max_size=2), min_size=2, max_size=3),
+    )
+
+
+def concurrent_enum_runner(mod, facet, tier, seed, shard, nshards, stats):
+    from ..core import enumerate_cases
+    from .. import sched
+
+    cases = []
+    for threads in ([[True], [True]], [[True], [False, True]]):
+        for plan in sched.single_preemption_plans(2, 90):
+            cases.append({"plan": plan, "threads": threads})
+    stats.extra["enumerated_plans"] = len(cases)
+    enumerate_cases(mod, facet, cases, shard, nshards, stats, exhaustive=True)
+
+
+FACETS = [
+    Facet("typed", strategy, check, classify, quick=2000, thorough=50000),
+    Facet("concurrent", concurrent_strategy, check_concurrent, classify_concurrent, quick=200, thorough=10000),
+    Facet("concurrent-enum", None, check_concurrent, classify_concurrent, quick=1, thorough=1, runner=concurrent_enum_runner),
+]
